@@ -298,6 +298,45 @@ theorem C02_cv_variable (env : Env) (hp : RulesProgress env.cfg = true) (F D : N
     the keep-doc set (decided over the regenerated tables) -/
 theorem C02_spec_first_tokens : ∀ ty ∈ "NAME" :: "const" :: "volatile" :: Gen.fundamentals, specFirst ty = true := specFirst_ok
 
+/-- **declarator prefixes as an interface**: pointer chains of any length are prefixes … -/
+theorem C02_prefix_ptr (env : Env) (F D : Nat) (pt d1 : DType) (pre : List (String × String))
+    (ha : applyPtrOps pt (pre.map (·.1)) = some d1) (hF : pre.length + 1 ≤ F) : PrefixSpec env F D pt pre d1 :=
+  prefixSpec_ptr env F D pt d1 pre ha hF
+
+/-- … and so are pointer chains ending in `&` / `&&` (the lvalue / rvalue reference to what the chain denotes) -/
+theorem C02_prefix_ref (env : Env) (F D : Nat) (pt d1 : DType) (chain : List (String × String)) (amp : String × String)
+    (ha : applyPtrOps pt (chain.map (·.1)) = some d1) (hnr : isRefLike d1 = false) (hamp : amp.1 = "&" ∨ amp.1 = "DBL_AMP")
+    (hF : chain.length + 1 ≤ F) : PrefixSpec env F D pt (chain ++ [amp]) (refOf amp.1 d1) :=
+  prefixSpec_ref env F D pt d1 chain amp ha hnr hamp hF
+
+/-- **`S prefix x ;` through `parse()`'s loop for ANY type specifier `S` (`TypeSpecR`) and ANY declarator prefix
+    (`PrefixSpec`)**: exactly ONE `on_variable` carrying the name `x` and the type the prefix denotes over the type
+    `S` denotes.  The two interfaces are independent: a new specifier form or a new prefix form needs only its own
+    instance lemma to be covered here, in class bodies (`C03_field_general`) and in whole sources (`Item.variablePre`). -/
+theorem C02_declaration_general (env : Env) (hp : RulesProgress env.cfg = true) (F D : Nat) (w : World)
+    (toks : List Tok) (first : Tok) (trest : List Tok) (segs : List PQSeg) (cst vol : Bool)
+    (pre : List (String × String)) (ops : List Tok) (x semi : Tok) (d1 : DType) (b1 b0 bmid bx b' : Buf)
+    (blk : Block) (rest : List Block) (hstack : w.stack = blk :: rest) (hk : blk.hdr.kind ≠ .cls)
+    (hmu : w.muted = false) (hfa : ¬ env.faultAt = some w.delivered)
+    (hspec : TypeSpecR env F D toks segs cst vol) (htoks : toks = first :: trest) (hfirst : specFirst first.type = true)
+    (htok : tokenEofOk env.cfg w.buf = .ok (some first, b1))
+    (hy0 : Yields env.cfg b1 trest b0)
+    (hhead : ∀ p ∈ pre.head?, declStart p.1 = true ∧ p.2 ≠ "auto")
+    (hy : Yields env.cfg b0 ops bmid)
+    (hpre : PrefixSpec env F (D + 1) (.type (.mk segs none false) cst vol) pre d1) (hfn : isFnType d1 = false) (hops : tvs ops = pre)
+    (htx : tokenEofOk env.cfg bmid = .ok (some x, bx)) (hx : x.type = "NAME") (hxv : identVal x.value = true)
+    (hsemi : tokenEofOk env.cfg bx = .ok (some semi, b')) (hs : semi.type = ";")
+    (hF : 2 ≤ F) :
+    ∃ (d : Option String) (bD : Buf) (w7 : World) (ct : CTok) (dox : Option String) (ev : Event),
+      getDoxygen env.cfg env.mcRe w.buf = .ok (d, bD) ∧
+      interp env (mainBody F (core F (D + 1 + 1)) none) w = (w7, .ok (.inl none)) ∧
+      SigEq b' w7.buf ∧ ct.value = first.value ∧ w7.stack = { blk with loc := .tok ct.sidx } :: rest ∧
+      w7.events = w.events ++ [ev] ∧ ev.kind = .item (.variable (plainVariable x d1 dox)) ∧
+      ev.stateId = blk.id ∧ ev.parentId = rest.head?.map (·.id) ∧ (∀ dd, d = some dd → dox = some dd) ∧
+      w7.delivered = w.delivered + 1 ∧ w7.anon = w.anon ∧ w7.muted = false ∧ w7.nextId = w.nextId :=
+  toplevel_variable_pre env hp F D w toks first trest segs cst vol pre ops x semi d1 b1 b0 bmid bx b' blk rest hstack hk hmu hfa
+    hspec htoks hfirst htok hy0 hhead hy hpre hfn hops htx hx hxv hsemi hs hF
+
 /-! non-vacuity: `const unsigned long volatile * const p ;` is a `SpecDeclToks` that satisfies `OK`, and the
     corresponding `Item.variableGen` reads exactly those tokens from a stream that holds them -/
 section nonvacuity
@@ -323,6 +362,29 @@ example (env : Env) (hp : RulesProgress env.cfg = true) (hnf : env.faultAt = non
           tk "const" "const", tk "NAME" "p", tk ";" ";"], lex := lex, bounded := true } bE :=
   ⟨{ tokbuf := [], lex := lex, bounded := true }, cvDecl_ok env F (D + 1 + 1) hF,
     Yields.of_tokbuf env.cfg lex true cvDecl.toks [] (by decide)⟩
+
+private def refDecl : DeclToks :=
+  { spec := [tk "const" "const", tk "unsigned" "unsigned", tk "long" "long"],
+    segs := [.fund "unsigned long"], cst := true, vol := false,
+    ops := [tk "*" "*", tk "const" "const", tk "&" "&"], x := tk "NAME" "r", semi := tk ";" ";",
+    d1 := .ref (.ptr (.type (.mk [.fund "unsigned long"] none false) true false) true false) }
+
+/-- `const unsigned long * const & r ;` satisfies the side conditions of `Item.variablePre` -/
+private theorem refDecl_ok (env : Env) (F D : Nat) (hF : 5 ≤ F) : refDecl.OK env F D := by
+  refine ⟨?_, ⟨_, _, rfl, by decide⟩, by decide, ?_, rfl, rfl, by decide, rfl, by omega⟩
+  · have h := typeSpecR_cv env F D [tk "const" "const"] [tk "unsigned" "unsigned", tk "long" "long"] []
+      [.fund "unsigned long"]
+      (nameSpecR_fund env F D (tk "unsigned" "unsigned") [tk "long" "long"] rfl (by decide) (by decide) (by show 1 + 1 ≤ F; omega))
+      (by decide) (by decide) (by show 1 + 0 + 3 ≤ F; omega)
+    exact h
+  · exact prefixSpec_ref env F (D + 1) _ _ [("*", "*"), ("const", "const")] ("&", "&") rfl rfl (.inl rfl) (by show 2 + 1 ≤ F; omega)
+
+example (env : Env) (hp : RulesProgress env.cfg = true) (hnf : env.faultAt = none) (F D : Nat) (hF : 5 ≤ F) (lex : LexState) :
+    ∃ bE, (Item.variablePre env hp hnf F D refDecl).At
+      { tokbuf := [tk "const" "const", tk "unsigned" "unsigned", tk "long" "long", tk "*" "*",
+          tk "const" "const", tk "&" "&", tk "NAME" "r", tk ";" ";"], lex := lex, bounded := true } bE :=
+  ⟨{ tokbuf := [], lex := lex, bounded := true }, refDecl_ok env F (D + 1 + 1) hF,
+    Yields.of_tokbuf env.cfg lex true refDecl.toks [] (by decide)⟩
 end nonvacuity
 
 end
